@@ -26,9 +26,10 @@ pub(crate) mod thread {
 
         /// number of `spawn` calls so far
         pub static SPAWNED: AtomicUsize = AtomicUsize::new(0);
-        /// spawn calls beyond this number are counted but their closure is not run (a harness sets it
-        /// so that an unexpected chain of respawns ends and can be reported by its own postcondition)
-        pub static SPAWN_LIMIT: AtomicUsize = AtomicUsize::new(usize::MAX);
+        /// spawn calls beyond this number are counted but their closure is not run, so that an
+        /// unexpected chain of respawns ends and is reported by the harness's own postcondition
+        /// (no harness legitimately spawns more than twice)
+        pub static SPAWN_LIMIT: AtomicUsize = AtomicUsize::new(4);
 
         pub struct JoinHandle<T>(PhantomData<T>);
 
